@@ -261,6 +261,11 @@ def run(ctx):
     for n in walk_no_nested(comp.node):
         if isinstance(n, ast.Slice) and n.step is not None:
             strides.add(norm(n.step))
+            ctx.check("C15-R3", comp, "decimation starts at pixel 0: " +
+                      norm(n), n.lower is None or norm(n.lower) == "0",
+                      "the decimated samples must be the pixels 0, factor, "
+                      "2*factor, ...: expand places sample k at k*factor, so "
+                      "an offset start shifts the whole map", node=n)
     cf = cs.get("BN_CFAC", [])
     cfv = None
     if cf:
